@@ -8,9 +8,10 @@ obs (all determined by the property):
   D gsha=<sha256 graph.bin> csha=<sha256 coords.bin>      the input files (harness encoder = Tbx.Bincode)
   D pfile len=<bytes> sha=<sha256>                         partition file, raw bytes
   D ids=<id> ...                                           partition file, decoded
-  D afile sha=<sha256> hdr=<0|1> nl=<0|1>                  assignment CSV, raw bytes
+  F afile sha=<sha256> hdr=<0|1> nl=<0|1>                  assignment CSV, raw bytes (layout not fixed by the property:
+                                                           judged through the rows, compared strictly for drift only)
   D arows=<id>:<lat>:<lon>,...                             assignment CSV, re-parsed (micro-degrees)
-  D cfile sha=<sha256> hdr=<0|1> nl=<0|1>                  cut CSV, raw bytes
+  F cfile sha=<sha256> hdr=<0|1> nl=<0|1>                  cut CSV, raw bytes
   D crows=<lat>:<lon>><lat>:<lon>,...                      cut CSV, re-parsed
 Model: `Tbx.Chipper.chipper` + the three writers.  Judge: reference hierarchy (`Tbx.Hierarchy.specAll` over
 `Tbx.Drv.ChipperRef.best`), id for id; level = r for every node (not claimed for the `dense` families);
@@ -32,7 +33,7 @@ def handle (c : Case) : CaseOut :=
       | some mo =>
         let st := statsOf inp.r mo.queues
         let nontrivial := decide (st.depth ≥ 3) && decide (st.paddedNodes ≥ 1) && decide (st.lastSplit ≥ 1)
-        (#["D rc=0", inputShaLine inp] ++ fileLines inp mo.pid,
+        (#["D rc=0", inputShaLine inp] ++ fileLines inp mo.pid ++ csvShaLines inp mo.pid,
          [("nontrivial", if nontrivial then "1" else "0"), ("n", toString inp.n), ("r", toString inp.r),
           ("m", toString inp.m), ("depth", toString st.depth), ("jobs", toString st.jobs),
           ("lastsplit", toString st.lastSplit), ("padded", toString st.paddedNodes)])
